@@ -147,6 +147,11 @@ def apply_special(fmt, obj, name, k, desc=None):
             if not variants:
                 return None
             p, v = variants[k % len(variants)]
+            if v.parent is not None and k % 3 == 1:
+                # the right letters with the dashes elsewhere: a nested UID is parent UID, ONE dash, id - exactly
+                good = v.uid
+                v.uid = [good.replace("-", "", 1), good.replace("-", "--", 1), good[:1] + "-" + good[1:], good + "-", good.replace("-", "")][(k // 3) % 5]
+                return "%s.uid (dashes moved: %r for %r)" % (v.id, v.uid, good), 2
             v.uid = "X" + v.uid if v.parent is not None else v.uid + "x"
             return "%s.uid" % v.id, 1 + (v.parent is not None)
         if name == "layered-variant-release-type":
